@@ -210,7 +210,9 @@ def solve_scipy(
     constraints_violated = False
     max_violation = 0.0
 
-    if result.success and scipy_constraints:
+    # A failed run is checked too: some termination messages (SLSQP's
+    # "positive directional derivative") are mapped to OPTIMAL below
+    if scipy_constraints and result.x is not None:
         for c in scipy_constraints:
             c_val = c["fun"](result.x)
             # Scaled tolerance based on constraint magnitude
@@ -227,8 +229,18 @@ def solve_scipy(
                 max_violation = max(max_violation, violation)
                 constraints_violated = True
 
+    # Variable bounds: methods outside BOUNDS_METHODS ignore them, and no
+    # method's result is exempt from the declared bounds
+    if result.x is not None:
+        for x_i, (lb_i, ub_i) in zip(result.x, bounds):
+            scaled_tol = atol + rtol * max(1.0, abs(x_i))
+            violation = max(lb_i - x_i, x_i - ub_i)
+            if violation > scaled_tol:
+                max_violation = max(max_violation, float(violation))
+                constraints_violated = True
+
     # If SLSQP returned "optimal" but constraints are violated, retry with trust-constr
-    if constraints_violated and method == "SLSQP":
+    if result.success and constraints_violated and method == "SLSQP":
         warnings.warn(
             f"SLSQP returned a solution that violates constraints (max violation: {max_violation:.2e}). "
             "Retrying with trust-constr method for more robust optimization.",
